@@ -52,6 +52,7 @@ class SimNode:
         self.vote_ops_next = []  # validation pass 1 operations to include in the next block
         self.manager_ops_next = []  # extra pass-3 operations (origination records etc.) for the next block
         self.big_maps = {}  # id -> {key_hash: micheline}
+        self.contracts = {}  # KT1 -> {'code': micheline, 'storage': micheline} (originated contracts with a script)
         self.on_inject = None  # callback(node, info) -> optional Reply (oracles live in the property modules)
         self.baker_on = False
         self.bake_jitter = cfg.get('bake_jitter_ms', [])  # per-bake extra delay (scenario-decided), cycled
@@ -285,7 +286,7 @@ class SimNode:
             if i >= 4 or j >= len(blk['ops'][i]):
                 return core.Reply.text('no such operation', 404)
             return core.Reply.js(blk['ops'][i][j])
-        m = re.match(r'^/context/contracts/([^/]+)(/counter|/manager_key|/balance)?$', rest)
+        m = re.match(r'^/context/contracts/([^/]+)(/counter|/manager_key|/balance|/script|/storage)?$', rest)
         if m:
             return self._contract_rpc(blk, bid, m.group(1), m.group(2) or '')
         if rest == '/votes/ballots':
@@ -306,6 +307,15 @@ class SimNode:
 
     def _contract_rpc(self, blk, bid, addr, sub):
         is_head = blk is self.head
+        if addr in self.contracts:
+            c = self.contracts[addr]
+            if sub == '/script':
+                return core.Reply.js({'code': c['code'], 'storage': c['storage']})
+            if sub == '/storage':
+                return core.Reply.js(c['storage'])
+            if sub == '/counter':
+                return core.Reply.text('no counter for originated contracts', 404)
+            return core.Reply.js({'balance': '0', 'script': {'code': c['code'], 'storage': c['storage']}})
         if addr.startswith('KT1'):
             # originated contracts tracked for C29: {'kt:<addr>': counter-or-None}
             v = blk['ctx']['tracked'].get('kt:' + addr)
